@@ -124,6 +124,34 @@ pub fn serve_binary_checked(req: &[u8]) -> BinaryAnswer {
     })
 }
 
+/// A request sent while `idle` other connections are open and silent. Some(true): answered while they were open. Some(false): twice in a row the
+/// answer arrived only after the silent connections had been closed (it was waiting behind them - a causal signal, not a timer). None: no binary,
+/// or the observation was not repeatable / did not complete (trouble is recorded).
+pub fn binary_answers_beside_idle_connections(req: &[u8], idle: usize) -> Option<bool> {
+    use std::io::Write;
+    BINARY.with(|b| {
+        let b = b.borrow();
+        let s = b.as_ref()?;
+        let limit = std::time::Duration::from_secs(3);
+        let mut waited_behind = 0;
+        for _attempt in 0..2 {
+            let mut held = vec![];
+            for _ in 0..idle { if let Ok(c) = s.connect() { held.push(c); } }
+            std::thread::sleep(std::time::Duration::from_millis(10));
+            let mut c = match s.connect() { Ok(c) => c, Err(e) => { BINARY_TROUBLE.with(|t| t.borrow_mut().push(format!("connect: {}", e))); return None; } };
+            if c.write_all(req).is_err() { return None; }
+            if req.is_empty() { let _ = c.shutdown(std::net::Shutdown::Write); }
+            let first = super::net::read_all(&mut c, limit);
+            if !(first.outcome == super::net::Outcome::TimedOut && first.bytes.is_empty()) { return Some(true); }
+            held.clear();
+            let second = super::net::read_all(&mut c, limit);
+            if second.bytes.is_empty() && second.outcome == super::net::Outcome::TimedOut { BINARY_TROUBLE.with(|t| t.borrow_mut().push("no answer beside idle connections nor after they were closed".to_string())); return None; }
+            waited_behind += 1;
+        }
+        if waited_behind == 2 { Some(false) } else { None }
+    })
+}
+
 /// None when no binary is running on this thread, or when the exchange did not complete (recorded as trouble: inconclusive, never a verdict).
 pub fn serve_binary(req: &[u8]) -> Option<ServeOut> {
     match serve_binary_checked(req) {
